@@ -1305,6 +1305,12 @@ class Interp(object):
                 raise Undecided("no body for %s" % path)
             env = self.callee_env(fr, body, r["args"])
             if body["kind"] == "Closure":
+                if fn["path"].startswith("std::ops::Fn") and len(args) == 2 and isinstance(args[1], Agg) and args[1].kind == "tuple":
+                    # Fn*::call(closure, (a, b, ..)): the closure body takes the arguments untupled
+                    args = [args[0]] + list(args[1].fields)
+                    first_ty = body["mir"]["locals"][1]["ty"]
+                    if first_ty["k"] != "ref" and isinstance(args[0], Ptr):
+                        args[0] = self.read_ptr(st, args[0])
                 return self.call_closure(body, args, st, fr, pc)
             if self.call_hook is not None:
                 hooked = self.call_hook(self, body, args, st, pc)
